@@ -30,7 +30,7 @@ def h_exact(ctx, n, rho, r0, dr, nswp, choices):
     ctx.canary('canary', ctx.all_eq(ref_full(Y), ref_full(T) * 2))
 
 
-def h_exact_interrupted(ctx, n, rho, how, after):
+def h_exact_interrupted(ctx, n, rho, how, after, nswp=2):
     """Fixed-rank start at rho, run interrupted after `after` oracle batches (by
     the evaluation budget or by the objective returning None), at least one
     complete forward half-sweep: the returned tensor equals the target already."""
@@ -39,7 +39,7 @@ def h_exact_interrupted(ctx, n, rho, how, after):
     Y0 = simple_Y0(n, rho)
     ref = Oracle(ctx, target=T)
     with stubs_installed(ctx, 'first'):
-        teneva.cross(ref, Y0, nswp=2, dr_min=0, dr_max=0, info={})
+        teneva.cross(ref, Y0, nswp=nswp, dr_min=0, dr_max=0, info={})
     sizes = [len(B) for B in ref.batches]
     info = {}
     if how == 'm':
@@ -49,7 +49,7 @@ def h_exact_interrupted(ctx, n, rho, how, after):
         orc = Oracle(ctx, target=T, none_at=ctx.const(after + 1) if is_sym(ctx) else after + 1)
         kw = {}
     with stubs_installed(ctx, 'first'):
-        Y = teneva.cross(orc, Y0, nswp=2, dr_min=0, dr_max=0, info=info, **kw)
+        Y = teneva.cross(orc, Y0, nswp=nswp, dr_min=0, dr_max=0, info=info, **kw)
     ctx.claim('interrupted_where_intended', info['stop'] == ('m' if how == 'm' else 'func') and
               len(orc.batches) == (after if how == 'm' else after + 1))
     ctx.claim('well_formed_same_shape', well_formed(Y, n))
@@ -166,6 +166,10 @@ def instances(tier):
         for how in ('m', 'func'):
             for after in range(len(n), 2 * len(n) + 1):
                 out.append({'func': 'h_exact_interrupted', 'params': {'n': n, 'rho': rho, 'how': how, 'after': after}, 'opts': G})
+            # in the second sweep (first request of its backward half included)
+            for after in range(2 * len(n) + 1, 4 * len(n)):
+                out.append({'func': 'h_exact_interrupted', 'params': {'n': n, 'rho': rho, 'how': how, 'after': after, 'nswp': 3},
+                            'opts': G})
     out.append({'func': 'h_info', 'params': {'n': [2, 2], 'rho': 1}, 'opts': G})
     for which in ('e_vld_on_interrupt', 'cache_with_budget'):
         out.append({'func': 'h_interrupted_info', 'params': {'which': which}, 'opts': G})
